@@ -20,7 +20,7 @@ pub use cryptographic::{cryptographic_builtin::CryptographicBuiltin, Cryptograph
 
 // Verification hook: sign arbitrary bytes with a PEM private key (the `private_key` module is
 // private to `security`); used by the C19 driver to build forged handshake messages.
-#[cfg(rustdds_verif)]
+#[cfg(all(rustdds_verif, any(not(rustdds_verif_only), rustdds_verif_c16, rustdds_verif_c19)))]
 pub(crate) fn verif_sign_with_pem_key(key_pem: &[u8], data: &[u8]) -> SecurityResult<bytes::Bytes> {
   private_key::PrivateKey::from_pem(key_pem)?.sign(data)
 }
